@@ -121,3 +121,12 @@ package txnlock
 //@   ensures missing: result == nil && len(locks) < expected ==> data.missingLock && data.commitTs == commitTS && (!old(data.missingLock) && commitTS != 0 ==> commitTS >= old(data.commitTs)) && (old(data.missingLock) ==> old(data.commitTs) == commitTS)
 //@   ensures frozen: result == nil && old(data.missingLock) ==> data.commitTs == old(data.commitTs) && data.missingLock
 //@   ensures mono: !data.missingLock ==> !old(data.missingLock) && data.commitTs >= old(data.commitTs)
+
+// A status counts as the FINAL outcome "rolled back" (and may be cached as such) only when the store reported the
+// transaction itself rolled back: no lock left alive (ttl 0), no commit timestamp, and one of the actions no-action /
+// lock-not-exist-rollback / ttl-expire-rollback. The roll-back of expired PESSIMISTIC locks leaves no marker and says
+// nothing final about the transaction, which may lock again and commit.
+//@ func (TxnStatus) IsRolledBack
+//@   prop C05 C04
+//@   pure
+//@   ensures result == (s.ttl == 0 && s.commitTS == 0 && (s.action == kvrpcpb.Action_NoAction || s.action == kvrpcpb.Action_LockNotExistRollback || s.action == kvrpcpb.Action_TTLExpireRollback))
